@@ -41,6 +41,10 @@ LINES = [
     "ntp server 172.16.5.9 key 12",
     "ip route 200.7.6.5 255.255.255.255 12.0.0.1 name PlyWood",
     "PlyRouter apply 65001",
+    "username admin password 0 PlyRouter",
+    "snmp-server community PlyRouter ro",
+    "enable secret plyrouter",
+    "password apply",
     "",
     "\t",
 ]
